@@ -22,6 +22,9 @@ BATTERY = [
     ("opspace", ["C09", "C08"]),
     ("coherence", ["C19"]),
 ]
+# coherence runs first: incoherent descriptors (placeholders, wrong indexes) make protobuf-go itself panic inside the
+# other engines, which is then a consequence of a reported violation, not a harness failure
+RUN_ORDER = [4, 0, 1, 2, 3]
 
 
 def prepare(ck, prop, spec, scratch, tier):
@@ -153,7 +156,7 @@ def run(ck, spec, prop, tier, seed, scratch, replay=None, budget=None):
     samples = [{"unit": u["ID"], "label": u["Label"], "parameter": u["Param"], "expect": u["Expect"], "files": u["Files"]} for u in man.get("units", [])[:3]]
     sub_reports = {}
     internal = None
-    for engine, subs in BATTERY:
+    for engine, subs in [BATTERY[i] for i in RUN_ORDER]:
         binp = engine_bin(ck, spec, scratch, engine)
         if binp is None:
             continue
@@ -197,6 +200,8 @@ def run(ck, spec, prop, tier, seed, scratch, replay=None, budget=None):
         "assumptions": ["schemas are built as FileDescriptorProtos (validated with protodesc) because there is no protoc in the sandbox; json_name is set as protoc does",
                         "features=fast / features=protoc alone do not yield a self-contained package: only the response shape is judged for them"],
     }
-    if internal:
+    if internal and not violations:
         rep["internal"] = internal
+    elif internal:
+        rep["extra"]["battery_engines_that_crashed_after_a_violation_was_found"] = internal
     return (1 if violations else 0), "", rep
